@@ -30,7 +30,7 @@ ClaimsOf(j) ==
 
 TokOf(pr, j) ==
   Tok(Origin(pr, j.k, "s1", "m1", j.f, j.a),
-      IF j.edit = "none" THEN NoEdit ELSE E(j.edit, IF pr[2] = "local" THEN (IF pr[1] = 2 THEN "body" ELSE "tag") ELSE "sig", ""),
+      IF j.edit = "none" THEN NoEdit ELSE IF j.edit = "relabel" THEN ERelabel(RelabelTarget(pr)) ELSE E(j.edit, IF pr[2] = "local" THEN (IF pr[1] = 2 THEN "body" ELSE "tag") ELSE "sig", ""),
       j.json, ClaimsOf(j))
 
 \* which listed properties a rejected observation speaks about
@@ -44,7 +44,7 @@ Why(ps, t, key, obs) ==
                  \o (IF kindsOf(S) \cap {"accept", "reject", "magic"} # {} THEN "C16 " ELSE "")
                  \o (IF \E k \in S : ~HasV(ps, k) THEN "C15 " ELSE "")
       \* what distinguishes the presentation from the token's origin
-      mism == (IF t.e # NoEdit THEN "C03 " ELSE "") \o (IF key # t.o.k THEN "C04 " ELSE "")
+      mism == (IF t.e # NoEdit THEN "C03 " ELSE "") \o (IF t.e.k = "relabel" THEN "C07 " ELSE "") \o (IF key # t.o.k THEN "C04 " ELSE "")
               \o (IF FB(ps.footer) # FB(t.o.f) THEN "C05 " ELSE "")
               \o (IF HasAssertion(ps.pr[1]) /\ AB(ps.assertion) # AB(t.o.a) THEN "C06 " ELSE "")
   IN
